@@ -68,6 +68,7 @@ def run_one(module, func, args, env=None, **kw):
 
 
 def _main():
+    sys.set_int_max_str_digits(0)
     fin, fout = sys.argv[1], sys.argv[2]
     with open(fin, "rb") as fh:
         module, func, chunk = pickle.load(fh)
